@@ -37,7 +37,7 @@ func init() {
 				return 1_500_000
 			}, Run: c06Arc,
 				Min: map[string]int64{"arcs": 100000, "relative": 20000, "absolute": 20000, "scaled_up_radii": 10000, "large_arc": 20000, "sweep_positive": 20000, "sweep_negative": 20000,
-					"zero_radius": 5000, "exact_semicircles": 2000, "exact_quarter_circles": 2000, "rotation_whole_quarter_turns": 50000, "reset_before_setrasterizer": 50000, "rectangle_changed_after_reset": 50000, "renderer_used_for_an_earlier_graphic": 50000, "lattice_mode": 20000, "lattice_endpoint_equals_pen_pixels": 5000, "cubics_1": 1000, "cubics_2": 1000, "cubics_3": 1000, "cubics_4": 1000, "negative_radius": 5000, "through_destination_logger": 50000, "last_arc_of_an_encoded_run": 100000, "encoded_run_position_above_16": 30000, "arc_directly_after_other_arcs": 100000, "degenerate_arc_before_the_arc": 50000}},
+					"zero_radius": 5000, "exact_semicircles": 2000, "exact_quarter_circles": 2000, "rotation_whole_quarter_turns": 50000, "rotation_of_many_turns": 50000, "reset_before_setrasterizer": 50000, "rectangle_changed_after_reset": 50000, "renderer_used_for_an_earlier_graphic": 50000, "lattice_mode": 20000, "lattice_endpoint_equals_pen_pixels": 5000, "cubics_1": 1000, "cubics_2": 1000, "cubics_3": 1000, "cubics_4": 1000, "negative_radius": 5000, "through_destination_logger": 50000, "last_arc_of_an_encoded_run": 100000, "encoded_run_position_above_16": 30000, "arc_directly_after_other_arcs": 100000, "degenerate_arc_before_the_arc": 50000}},
 		},
 	})
 }
@@ -175,6 +175,10 @@ func c06Arc(c *run.Ctx, idx uint64) {
 	if r.Chance(1, 6) {
 		rot = float32(r.Range(-9, 9)) / 4 // whole quarter turns of either sign
 		c.Count("rotation_whole_quarter_turns", 1)
+	} else if r.Chance(1, 12) {
+		// hundreds or thousands of turns plus a fraction that float32 still holds exactly
+		rot = float32(r.Pick(-4096, -2048, -300, 100, 1000, 4096)) + float32(r.Intn(64))/64
+		c.Count("rotation_of_many_turns", 1)
 	}
 	fa, fs := r.Bool(), r.Bool()
 	rel := r.Bool()
